@@ -1,4 +1,10 @@
-import JoinModel
+-- the driver depends on the model only (never on the property theorems: a theorem that no longer checks must not
+-- take the correspondence runs down with it)
+import JoinModel.Print
+import JoinModel.Spec
+import JoinModel.Concrete
+import JoinModel.ParseDriver
+import JoinModel.Names
 open JoinModel
 
 def handleLine (line : String) : String :=
